@@ -171,7 +171,7 @@ def run_history(res, ctx, root, rng, hidx, max_steps, con):
             res.violation("escaped-exception", f"step {s}: {r.exc_type}", tb=r.exc_tb, args=args + opts)
             return
         after_bytes = (f.read_bytes(), open(str(f) + ".license", "rb").read() if os.path.exists(str(f) + ".license") else None)
-        success = r.exit_code == 0 and "Successfully changed header" in r.stdout
+        success = r.exit_code == 0 and ("Successfully changed header" in r.stdout or after_bytes != before_bytes)
         if not success:
             # failed or skipped: nothing may change (an empty .license created on the way is C11's finding, not this one)
             changed = after_bytes[0] != before_bytes[0] or (before_bytes[1] is not None and after_bytes[1] != before_bytes[1])
